@@ -527,11 +527,25 @@ func makeClassesReady(p *slip.Package) {
 }
 
 func classChanged(cc slip.Class, p *slip.Package) {
+	var subs []isStandardClass
 	for _, c := range p.AllClasses() {
 		if c.Inherits(cc) {
 			if sc, ok := c.(isStandardClass); ok {
-				sc.mergeSupers()
+				subs = append(subs, sc)
 			}
 		}
+	}
+	// A class is merged from the inherit lists of its direct superclasses so
+	// those must be merged first. The inherit list of a class is always
+	// longer than the inherit list of any of the classes it inherits from.
+	sort.SliceStable(subs, func(i, j int) bool {
+		li, lj := len(subs[i].InheritsList()), len(subs[j].InheritsList())
+		if li != lj {
+			return li < lj
+		}
+		return subs[i].Name() < subs[j].Name()
+	})
+	for _, sc := range subs {
+		sc.mergeSupers()
 	}
 }
